@@ -173,8 +173,16 @@ def enumerate_jobs(tier, seed):
             subsets += list(itertools.combinations(PROTOS, r))
     for layer in LAYERS:
         for s in subsets:
-            run_it = tier == "thorough" or len(s) == 1 or s == full
+            # quick: round trips run for singletons, the full set and - at the batteries-included layer, which builds
+            # all three layers - for every pair; the other pair configurations are compiled only
+            run_it = tier == "thorough" or len(s) == 1 or s == full or (len(s) == 2 and layer == "batteries_included")
             jobs.append(("run" if run_it else "check", Cfg(layer, s), "config"))
+    if tier == "quick":
+        # beyond the stated quick set: every triple at the core layer (compile) and every "full minus one" set (run)
+        for s in itertools.combinations(PROTOS, 3):
+            jobs.append(("check", Cfg("core", s), "config-extra"))
+        for drop in PROTOS:
+            jobs.append(("run", Cfg("generic", tuple(p for p in PROTOS if p != drop)), "config-extra"))
     jobs.append(("run", Cfg("batteries_included", (), special="default"), "config"))
     jobs.append(("run", Cfg("core", (), special="none"), "config"))
     # monotonicity: code written for S, library built with S' (superset)
